@@ -42,7 +42,8 @@ HANDLE_TEMPLATE = (
 
 def _analyse_handler(fn, problems, where):
     """fn: AsyncFunctionDef handle_<name>. returns dict"""
-    info = {"supported": True, "nreq": 0, "resp": "n", "fields": [], "user": fn.name[len("handle_"):], "req_exprs": [], "expected": None}
+    info = {"supported": True, "nreq": 0, "resp": "n", "fields": [], "user": fn.name[len("handle_"):], "req_exprs": [], "expected": None,
+            "enc_exprs": []}   # enc_exprs: source of the `output.<type>(response[.field], …)` statements, in order
     body = fn.body
     if [a.arg for a in fn.args.args] != ["self", "client", "input", "output"]:
         problems.append("%s: unexpected signature" % where)
@@ -105,6 +106,13 @@ def _analyse_handler(fn, problems, where):
     for e in enc:
         if not (isinstance(e, ast.Expr) and isinstance(e.value, ast.Call) and ast.unparse(e.value.func).startswith("output.")):
             problems.append("%s: unexpected response statement %r" % (where, ast.unparse(e)))
+        else:
+            info["enc_exprs"].append(ast.unparse(e.value))
+    # every encode statement writes the response (single) / its own field, in the order of the field list (multi)
+    want_args = ["response"] if info["resp"] != "m" else ["response." + f for f in info["fields"]]
+    got_args = [ast.unparse(e.value.args[0]) if isinstance(e, ast.Expr) and isinstance(e.value, ast.Call) and e.value.args else None for e in enc]
+    if got_args != want_args:
+        problems.append("%s: response statements write %r, expected %r" % (where, got_args, want_args))
     return info
 
 
